@@ -172,6 +172,21 @@ func c10(c *core.Ctx, r *core.Report) {
 			if !isFA || an.FieldOfAddr(fa).Name() != "StartTarget" || !an.IsNamed(fa.X.Type(), core.ModPath+"/"+spkg, "Stage") {
 				return nil, nil
 			}
+			// the zero value spelled out in a composite literal (`Stage{StartTarget: 0, EndTarget: …}`) is the same as
+			// leaving the field out: not a chaining decision
+			if k, isK := st.Val.(*ssa.Const); isK && k.Value != nil && k.Int64() == 0 {
+				if al, isAl := fa.X.(*ssa.Alloc); isAl && len(an.StoresTo(al)) == 0 && len(an.LiteralFieldStores(al)) >= 2 {
+					whole := false
+					for _, ref := range an.Referrers(al) {
+						if _, isSt := ref.(*ssa.Store); isSt {
+							whole = true
+						}
+					}
+					if !whole {
+						return nil, nil
+					}
+				}
+			}
 			return st, fa
 		}
 		complete := func(e an.Event, fa *ssa.FieldAddr) bool {
@@ -633,16 +648,26 @@ func c10(c *core.Ctx, r *core.Report) {
 		for _, ret := range an.Returns(rampFn) {
 			for _, g := range an.GuardsOf(ret.Block()) {
 				call, isCall := an.Strip(g.Cond).(*ssa.Call)
-				if !isCall || !isTimeMethod(an.Callee(call), "Time", "Before") || !g.Polarity {
+				if !isCall || !g.Polarity {
+					continue
+				}
+				// end.Before(now), or the same test written now.After(end)
+				var endV, nowV ssa.Value
+				switch {
+				case isTimeMethod(an.Callee(call), "Time", "Before"):
+					endV, nowV = call.Call.Args[0], call.Call.Args[1]
+				case isTimeMethod(an.Callee(call), "Time", "After"):
+					endV, nowV = call.Call.Args[1], call.Call.Args[0]
+				default:
 					continue
 				}
 				after++
 				d := an.D().Of(ret.Results[0])
 				r.Check(d == "0", "ramp#after-end", an.Pos(c, ret), "the ramp returns 0 after its duration", "after the ramp duration the ramp returns "+d+" instead of 0")
-				// start.Add(duration).Before(now): the receiver is an Add of a duration onto the start, the argument the time parameter
-				addCall, isAdd := an.Strip(call.Call.Args[0]).(*ssa.Call)
-				_, argIsParam := an.Strip(call.Call.Args[1]).(*ssa.Parameter)
-				okEnd := isAdd && isTimeMethod(an.Callee(addCall), "Time", "Add") && isDuration(addCall.Call.Args[1].Type()) && argIsParam && an.Strip(call.Call.Args[1]).(*ssa.Parameter).Parent() == rampFn
+				// start.Add(duration).Before(now): the end is an Add of a duration onto the start, the other operand the time parameter
+				addCall, isAdd := an.Strip(endV).(*ssa.Call)
+				np, argIsParam := an.Strip(nowV).(*ssa.Parameter)
+				okEnd := isAdd && isTimeMethod(an.Callee(addCall), "Time", "Add") && isDuration(addCall.Call.Args[1].Type()) && argIsParam && np.Parent() == rampFn
 				r.Check(okEnd, "ramp#end-test", an.Pos(c, g.If), "end test is start+duration Before now", "the ramp's end test is "+an.D().Of(g.Cond)+", not startTime.Add(duration).Before(now)")
 			}
 		}
